@@ -143,8 +143,18 @@ def Lines.paths : Lines → List (List P)
   | .line l => [l]
   | .multi ls => ls
 
-/-- `LineString.Clip` / `MultiLineString.Clip`: rings → `op(p, CLIPLINE)` → drop the last vertex -/
+/-- one line: it becomes the single ring of a `Polygon`, `op(p, CLIPLINE)`, last vertex dropped
+(`LineString.Clip`, and the body of the loop of `MultiLineString.Clip`) -/
+def clip1 (core : ClipCore) (l : List P) (arg : Operand) : List (List P) :=
+  (polyOp core .clipline [l] arg).map fun pp => pp.dropLast
+
+/-- `LineString.Clip` / `MultiLineString.Clip` (after /repo fix 9635cd6 every member line is clipped on
+its own and the pieces are concatenated) -/
 def clip (core : ClipCore) (L : Lines) (arg : Operand) : List (List P) :=
+  L.paths.flatMap fun l => clip1 core l arg
+
+/-- the pre-fix `MultiLineString.Clip`: all members in one clipper call -/
+def clipTogether (core : ClipCore) (L : Lines) (arg : Operand) : List (List P) :=
   (polyOp core .clipline L.paths arg).map fun pp => pp.dropLast
 
 end GeomV.C01
